@@ -89,11 +89,14 @@ def run(tier, seed):
     rng = ctx.rng
     reps = 10 if tier == "quick" else 100
     for n in range(1, 17):
-        for _ in range(reps):
-            ph, style = P.corner_phases(rng, n)
+        for rep in range(reps + 3):
+            ph, style = P.corner_phases(rng, n, style=(None if rep < reps else ["nearly-real", "chebyshev", "mirror"][rep - reps]))
             Pc = P.corner_poly(ph)
             tol = float(rng.choice([1e-6, 1e-6, 1e-4, 1e-8, 1e-10, 1e-12, 1e-14]))
             r = rng.random()
+            if rep >= reps:          # the structured styles are there for what is RETURNED: keep them achievable, mostly default tol
+                r = 0.0
+                tol = 1e-6 if rng.random() < 0.7 else float(rng.choice([1e-3, 1e-9]))
             if r < 0.6:
                 kind = "achievable"
             elif r < 0.7:
